@@ -805,6 +805,8 @@ def find_functions(src):
                 out[name if name not in out else "%s@%d" % (name, ln)] = dict(name=name, error=str(ex), line=ln, tokens=[t[1] for t in toks[i:e]])
             except RecursionError:
                 out[name] = dict(name=name, error="too deeply nested", line=ln, tokens=[])
+            except Exception as ex:
+                out[name if name not in out else "%s@%d" % (name, ln)] = dict(name=name, error="parser: %s" % str(ex)[:100], line=ln, tokens=[])
             i = e
             continue
         i += 1
